@@ -10,7 +10,7 @@ import sys
 
 from hypothesis import strategies as st
 
-from vlib.runner import Violation, REPO
+from vlib.runner import Violation, Discard, REPO
 
 ID = 'C19'
 LEVEL = 'exploration'
@@ -96,6 +96,9 @@ def _case(draw):
         rel = draw(st.sampled_from([n + 'ft2', n + '-1.0', 'lib' + n, n + '-bar', n[:-1] if len(n) > 1 else n + 'x', n + '.so']))
         if rel not in names:
             names.insert(draw(st.integers(0, len(names))), rel)
+    # a request ending in ".la" is by contract the PATH of a libtool archive (those are generated separately, as
+    # files that exist); as a plain library name it would be opened as a file - outside the statement's domain
+    names = [n for n in names if not n.endswith('.la')]
     entries = []
     for n in names:
         # most requests have a true match, surrounded by decoys aimed at the same name
@@ -262,6 +265,8 @@ def _check(case, ctx, shlibs, scratch):
         ctx.label('regex-metachar-name')
 
     # end-to-end through resolve_shlibs: .la archives + ldd wrapper
+    if any(n.endswith('.la') for n in names):
+        raise Discard()     # domain guard for replayed cases (see _case)
     if case['las'] or case['e2e']:
         la_names = []
         la_exp = []
